@@ -52,9 +52,9 @@ func aliasesOf(v ssa.Value) map[ssa.Value]bool {
 }
 
 type PairSpec struct {
-	Rule     string
-	What     string
-	Release  []string // short method names that release when called on the value
+	Rule    string
+	What    string
+	Release []string // short method names that release when called on the value
 	// Consumers: qualified callee names that take over the reference when the
 	// value is passed as an argument.
 	Consumers []string
